@@ -174,4 +174,64 @@ theorem cog_map_R (g : AGroup ℝ) :
 
 end iso
 
+/-! ## inertia, inertiaZ; sums over the pairs of two groups -/
+
+theorem foldlG_add_eq {β : Type} (f : β → ℝ) (l : List β) (acc : ℝ) :
+    l.foldl (fun s a => s + f a) acc = acc + (l.map f).sum := by
+  induction l generalizing acc with
+  | nil => simp
+  | cons a t ih => simp [ih, add_assoc]
+
+theorem inertia_eq (g : AGroup ℝ) : inertia g = (g.map fun a => V3.norm2 (V3.sub a.r (cog g))).sum := by
+  unfold inertia centered
+  rw [foldlV_add_eq V3.norm2, lit0, zero_add, List.map_map]
+  rfl
+
+theorem inertiaZ_eq (g : AGroup ℝ) (axis : V3 ℝ) :
+    inertiaZ g axis = (g.map fun a => V3.dot (V3.sub a.r (cog g)) (V3.unit axis) *
+      V3.dot (V3.sub a.r (cog g)) (V3.unit axis)).sum := by
+  unfold inertiaZ centered
+  simp only []
+  rw [foldlV_add_eq (fun p => V3.dot p (V3.unit axis) * V3.dot p (V3.unit axis)), lit0, zero_add, List.map_map]
+  rfl
+
+theorem pairs_cons (a : Atom ℝ) (t g2 : AGroup ℝ) :
+    pairs (a :: t) g2 = (g2.map fun b => (a, b)) ++ pairs t g2 := by
+  simp [pairs]
+
+theorem foldl_pairs_eq (f : Atom ℝ → Atom ℝ → ℝ) (g1 g2 : AGroup ℝ) :
+    (pairs g1 g2).foldl (fun acc ab => acc + f ab.1 ab.2) (0.0 : ℝ) =
+      (g1.map fun a => (g2.map fun b => f a b).sum).sum := by
+  rw [foldlG_add_eq (fun ab : Atom ℝ × Atom ℝ => f ab.1 ab.2), lit0, zero_add]
+  induction g1 with
+  | nil => simp [pairs]
+  | cons a t ih =>
+    rw [pairs_cons, List.map_append, List.sum_append, ih, List.map_map]
+    simp [Function.comp_def]
+
+/-- a double sum does not depend on the order of either list -/
+theorem sum_sum_perm (f : Atom ℝ → Atom ℝ → ℝ) (g1 g1' g2 g2' : AGroup ℝ) (h1 : g1.Perm g1') (h2 : g2.Perm g2') :
+    (g1.map fun a => (g2.map fun b => f a b).sum).sum = (g1'.map fun a => (g2'.map fun b => f a b).sum).sum := by
+  have hin : (fun a => (g2.map fun b => f a b).sum) = fun a => (g2'.map fun b => f a b).sum := by
+    funext a; exact (h2.map _).sum_eq
+  rw [hin, (h1.map _).sum_eq]
+
+theorem coordNum_eq (g1 g2 : AGroup ℝ) (p : SwParams ℝ) :
+    coordNum g1 g2 p = (g1.map fun a => (g2.map fun b => swValue p (reducedDist2 p a b)).sum).sum := by
+  unfold coordNum
+  exact foldl_pairs_eq (fun a b => swValue p (reducedDist2 p a b)) g1 g2
+
+theorem distanceInv_eq (g1 g2 : AGroup ℝ) (n : Nat) :
+    distanceInv g1 g2 n =
+      ((g1.map fun a => (g2.map fun b => invPow (V3.norm2 (V3.sub b.r a.r)) (n / 2)).sum).sum *
+        (1 / ((g1.length * g2.length : Nat) : ℝ))) ^ (-1 / (n : ℝ)) := by
+  unfold distanceInv
+  simp only []
+  rw [foldl_pairs_eq (fun a b => invPow (V3.norm2 (V3.sub b.r a.r)) (n / 2)) g1 g2, prim_pow, lit1]
+
+theorem reducedDist2_eq (p : SwParams ℝ) (a b : Atom ℝ) :
+    reducedDist2 p a b = V3.norm2 (V3.sub b.r a.r) / (p.r0 * p.r0) := by
+  unfold reducedDist2
+  simp only [norm2_def, dot_def, div_mul_div_comm, add_div]
+
 end Cv.C02L
